@@ -34,6 +34,20 @@ type pxFrame struct {
 	parent *pxFrame
 	site   *ssa.Call
 	depth  int
+	// a function literal stepped into: the terms its free variables were bound to
+	// when the closure was made, and (for variables captured by reference) the
+	// cell of the creating frame they stand for
+	fvTerm map[*ssa.FreeVar]*Term
+	fvCell map[*ssa.FreeVar]string
+	// the frame was entered through a function value (not a static call)
+	viaValue bool
+}
+
+// pxClosure: a function value made on the current exploration.
+type pxClosure struct {
+	fn    *ssa.Function
+	binds []*Term  // binding terms at creation
+	cells []string // per binding: the local cell it is the address of ("" if none)
 }
 
 type pxState struct {
@@ -108,6 +122,8 @@ type PX struct {
 	// views: slices of slices / strings are terms view(root, lo, hi) with symbolic
 	// bounds, and len of a view is hi-lo (see pxviews.go); off by default.
 	views bool
+	// function values made along the exploration, by the key of their term (pxfuncs.go)
+	closures map[string]*pxClosure
 }
 
 func (w *World) newPX(h pxHooks) *PX {
@@ -163,12 +179,29 @@ func (p *PX) term(v ssa.Value, fr *pxFrame, st *pxState) *Term {
 			return t
 		}
 		return &Term{K: TLeaf, V: v, T: v.Type(), key: "<" + fr.id + "p:" + x.Name() + ">"}
+	case *ssa.FreeVar:
+		if t, ok := fr.fvTerm[x]; ok {
+			return t
+		}
 	case *ssa.Phi:
 		if t, ok := st.vals[p.reg(fr, v)]; ok {
 			return t
 		}
 	case *ssa.BinOp:
 		a, b := p.term(x.X, fr, st), p.term(x.Y, fr, st)
+		// a function value known on this path is not nil
+		if x.Op == token.EQL || x.Op == token.NEQ {
+			if (p.isFuncValue(a) && strings.HasPrefix(b.key, "nil:")) || (p.isFuncValue(b) && strings.HasPrefix(a.key, "nil:")) {
+				r := x.Op == token.NEQ
+				return &Term{K: TBoolConst, Bool: r, T: v.Type(), key: fmt.Sprintf("%v", r)}
+			}
+			// a concrete value boxed into an interface (`return newCodecError(…)` from a
+			// function stepped into) is a non-nil interface value
+			if (isBoxed(a) && strings.HasPrefix(b.key, "nil:")) || (isBoxed(b) && strings.HasPrefix(a.key, "nil:")) {
+				r := x.Op == token.NEQ
+				return &Term{K: TBoolConst, Bool: r, T: v.Type(), key: fmt.Sprintf("%v", r)}
+			}
+		}
 		// (x >> a) >> b = x >> (a+b) for constant shifts of the same signedness (bits >>= 8 in a loop)
 		if x.Op == token.SHR && b.K == TConst && a.K == TBin && a.Op == token.SHR && a.B.K == TConst && types.Identical(a.T, v.Type()) {
 			sum := new(big.Int).Add(a.B.C, b.C)
@@ -234,6 +267,16 @@ func (p *PX) term(v ssa.Value, fr *pxFrame, st *pxState) *Term {
 			if g, ok := x.X.(*ssa.Global); ok {
 				if c, ok := p.w.globalInit(g); ok {
 					return &Term{K: TConst, C: c, T: v.Type(), key: c.String()}
+				}
+			}
+			// a variable captured by reference, read inside the function literal: the
+			// value last stored in the creating frame's cell on this path
+			if fv, ok := x.X.(*ssa.FreeVar); ok {
+				if cell := fr.fvCell[fv]; cell != "" {
+					if t, ok := st.vals[cell+"*"]; ok {
+						return t
+					}
+					return &Term{K: TLeaf, V: v, T: v.Type(), key: "<*" + cell + ">"}
 				}
 			}
 			// load of a local variable: the value last stored on this path
@@ -303,6 +346,10 @@ func (p *PX) term(v ssa.Value, fr *pxFrame, st *pxState) *Term {
 			return t
 		}
 		a := p.term(x.X, fr, st)
+		// a field of a struct value whose components are known on this path
+		if a.K == TPure && a.Name == "struct" && x.Field < len(a.Args) && !strings.HasPrefix(a.Args[x.Field].key, "zero:") {
+			return a.Args[x.Field]
+		}
 		return &Term{K: TLeaf, V: v, T: v.Type(), key: fmt.Sprintf("fld(%s,.%d)", a.key, x.Field)}
 	case *ssa.IndexAddr:
 		a, i := p.term(x.X, fr, st), p.term(x.Index, fr, st)
@@ -569,6 +616,11 @@ func (p *PX) instrs(fr *pxFrame, b *ssa.BasicBlock, from int, st *pxState, k pxC
 				st.vals[p.reg(fr, al)+"*"] = vt
 				p.splitStruct(fr, al, vt, st)
 			}
+			if fv, ok := x.Addr.(*ssa.FreeVar); ok {
+				if cell := fr.fvCell[fv]; cell != "" {
+					st.vals[cell+"*"] = p.term(x.Val, fr, st)
+				}
+			}
 			if fa, ok := x.Addr.(*ssa.FieldAddr); ok {
 				vt := p.term(x.Val, fr, st)
 				p.bumpField(fieldID(fa), st)
@@ -597,9 +649,17 @@ func (p *PX) instrs(fr *pxFrame, b *ssa.BasicBlock, from int, st *pxState, k pxC
 					st.trace = append(st.trace, pxEvent{Kind: "mapupdate", Frame: fr, Args: []*Term{p.term(x.Key, fr, st), p.term(x.Value, fr, st)}, Env: st.env, Pos: p.w.instrPos(x), Extra: fieldID(fa)})
 				}
 			}
+		case *ssa.MakeClosure:
+			p.recordClosure(x, fr, st)
 		case *ssa.Call:
 			p.byteCall(x, fr, st)
 			sc := x.Call.StaticCallee()
+			var clo *pxClosure
+			var recvTerm *Term
+			if sc == nil && stepIn {
+				// a call of a function value known on this path (pxfuncs.go)
+				sc, clo, recvTerm = p.funcValueCallee(x, fr, st)
+			}
 			if sc == nil || !stepIn {
 				if sc != nil {
 					p.callEffects(sc, st)
@@ -618,11 +678,27 @@ func (p *PX) instrs(fr *pxFrame, b *ssa.BasicBlock, from int, st *pxState, k pxC
 			}
 			p.seq++
 			child := &pxFrame{fn: sc, id: fmt.Sprintf("%sc%d/", fr.id, p.seq), subst: map[*ssa.Parameter]*Term{}, parent: fr, site: x, depth: fr.depth + 1}
-			for ai, prm := range sc.Params {
+			off := 0
+			if recvTerm != nil && len(sc.Params) > 0 {
+				// a method value: the receiver was bound when the value was made
+				child.subst[sc.Params[0]] = recvTerm
+				off = 1
+			}
+			for ai, prm := range sc.Params[off:] {
 				if ai < len(x.Call.Args) {
 					child.subst[prm] = p.term(x.Call.Args[ai], fr, st)
 					if bs := p.byteSeqOf(x.Call.Args[ai], fr, st); bs != nil {
 						st.bseq[child.id+regName(prm)] = bs
+					}
+				}
+			}
+			child.viaValue = x.Call.StaticCallee() == nil
+			if clo != nil && recvTerm == nil {
+				child.fvTerm, child.fvCell = map[*ssa.FreeVar]*Term{}, map[*ssa.FreeVar]string{}
+				for i, fv := range sc.FreeVars {
+					if i < len(clo.binds) {
+						child.fvTerm[fv] = clo.binds[i]
+						child.fvCell[fv] = clo.cells[i]
 					}
 				}
 			}
